@@ -182,7 +182,7 @@ def run(ctx, crate):
                         obs.append(Ob("R13.sanitizer", b.path, "%s into an ordered collection (%s)" % (need, dty.split("<")[0].rsplit("::", 1)[-1]), True, site=cs.where,
                                       expected="sort with a total key before rendering", found="iteration in key order"))
                         need = None
-                elif is_generator(b) and rooted_at_param(it) and lp.self_ty.startswith("std::vec::"):
+                elif is_generator(b) and rooted_at_param(it) and lp.self_ty.startswith(("std::vec::", "std::slice::", "core::slice::")):
                     need = "discovery-ordered list handed to the generator"
                 if need:
                     ss = O.sorted_before(b, it, lp.site.bb)
